@@ -144,6 +144,7 @@ type Sess struct {
 	absStr bool
 	epochTop map[string]string
 	privCells *[]*ssa.Alloc
+	heapReads int // counts region reads (used to reject heap-reading opaque definitions)
 	inlineSites []ssa.CallInstruction
 	epochPrev map[string][]epochPred // the states a heap epoch was started from
 	axioms []string
@@ -350,6 +351,7 @@ func (s *Sess) wfRegion(term, key, top string) {
 }
 
 func (s *Sess) region(st *State, key, sort string) string {
+	s.heapReads++
 	if t, ok := st.heap[key]; ok {
 		return t
 	}
